@@ -21,7 +21,8 @@ class SchedAdapter:
     def __init__(self, desc, targets, props, reqs=2, mode='ample',
                  req_menu=None, outcomes=OUTCOMES, max_workers=2,
                  max_copies=2, double_reply=False, revs=None, life=False, poll=False,
-                 max_life=2, clock_at=None, max_timers=0, faults=0, journal_faults=False):
+                 max_life=2, clock_at=None, max_timers=0, faults=0, journal_faults=False, rereg=False):
+        self.rereg = rereg
         self.faults = faults
         self.journal_faults = journal_faults
         import datetime
@@ -188,6 +189,8 @@ class SchedAdapter:
                     evs.append(('reg',) if len(self.revs) == 1 else ('reg', rev))
             for i in range(len(s['workers'])):
                 evs.append(('drop', i))
+            if self.rereg and s['mon'].get('rereg', 0) < 1 and s['workers']:
+                evs.append(('rereg', 0))
         if self.max_timers and s.get('timed') and s['timed']['timers'] \
                 and s['mon'].get('ntimer', 0) < self.max_timers:
             evs.append(('timer',))
@@ -236,6 +239,8 @@ class SchedAdapter:
             w.ev_life(*ev[1:])
         elif kind == 'drop':
             w.ev_drop(ev[1])
+        elif kind == 'rereg':
+            w.ev_rereg(ev[1])
         else:
             raise common.HarnessBroken(f'unknown event {ev}')
 
@@ -388,6 +393,8 @@ class SchedAdapter:
                     if set(after[tag][0]) - set(before[tag][0]):
                         trig[tag] = None    # a timer event carries no run id
             mon['trig'] = tuple(sorted(trig.items()))
+        if ev[0] == 'rereg':
+            mon['rereg'] = mon.get('rereg', 0) + 1
         if ev[0] == 'life':
             mon['life'] = mon.get('life', 0) + 1
         if tuple(ev) == ('tick', 'db-outage') or (ev[0] == 'reply' and str(ev[4]).endswith('!journal-outage')):
